@@ -438,6 +438,7 @@ class Ctx:
         self.int_div = int_div  # C semantics for integer-literal quotients
         self.c_fmod = c_fmod  # C fmod sign
         self.strict_rel = strict_rel  # Ge / Le read as Gt / Lt (what sympy.simplify makes of a non-strict relational with a float bound)
+        self.inputs = None  # names whose values are given (states, parameters, t): everything else is computed; None = unknown
         self.frag_tol = frag_tol
 
     def near(self, a, b, simple):
@@ -446,6 +447,15 @@ class Ctx:
         a, b = _val(a), _val(b)
         if abs(a - b) <= self.frag_tol * (abs(a) + abs(b) + 1e-300) and not (a == b == 0):
             self.fragile = True
+
+
+def _exact(node, ctx):
+    """a syntactically simple operand whose variables are all inputs (a plain intermediate name is simple to look at, but its value is computed)"""
+    if not _simple(node):
+        return False
+    if ctx.inputs is None:
+        return True
+    return not _contains(node, lambda n: n[0] == "var" and n[1] not in ctx.inputs and n[1] not in ("t", "time"))
 
 
 def _simple(node):
@@ -587,6 +597,10 @@ def _call(node, ctx):
                 return a
         if name == "floor":
             ctx.near(x, round(x), _simple(args[0]))
+            # a computed argument within rounding distance of an integer - including 0, where a relative test sees nothing: the two sides
+            # of the jump are both "the value to within float64 rounding" (cos(acos(0)) is 6e-17, symbolically it is 0)
+            if not _exact(args[0], ctx) and abs(x - round(x)) <= 1e-9 * (1.0 + ctx.maxabs):
+                ctx.fragile = True
         if name in ("abs", "Abs") and isinstance(a, Dual):
             ctx.near(x, 0.0, False)
         if name in ("sin", "cos", "tan"):  # |f'| is O(1): the rounding of the argument becomes an absolute error of the result
@@ -607,6 +621,8 @@ def _call(node, ctx):
         q = av / bv
         ctx.maxabs = max(ctx.maxabs, abs(av))
         ctx.near(q, round(q), _simple(args[0]) and _simple(args[1]))
+        if not (_exact(args[0], ctx) and _exact(args[1], ctx)) and abs(q - round(q)) * abs(bv) <= 1e-9 * (1.0 + ctx.maxabs + abs(bv)):
+            ctx.fragile = True  # a computed dividend within rounding distance of a multiple of the divisor (log(exp(4e-76)) is 0.0 in floats)
         if av < 0 or bv < 0:
             ctx.flags.add("mod-negative-operand")
         if ctx.c_fmod:
@@ -847,6 +863,7 @@ class RefModel:
             return v
 
         ctx = Ctx(lookup, **sw)
+        ctx.inputs = set(base)
         out = {}
         for n in names if names is not None else self.assigns:
             v = lookup(n)
